@@ -119,6 +119,75 @@ struct Gen {
 
 const char* const ELEMS[] = { "int", "string", "counting" };
 
+
+// ------------------------------------------------------------------------------------------------ naming helpers
+// operation family (signature of fault findings) and the API method an operation calls directly (assert attribution)
+std::string prefixOf(const std::string& op) {
+    if (op.compare(0, 5, "push_") == 0 || op.compare(0, 4, "pop_") == 0) return op.substr(0, op.find('_', op.find('_') + 1));
+    return op.substr(0, op.find('_'));
+}
+std::string familyOf(const std::string& op) {
+    if (op == "copy_ctor" || op == "self_assign" || op == "assign_from_b" || op == "assign_to_b") return "copy";
+    const std::string p = prefixOf(op);
+    if (p == "index") return "insert";
+    if (p == "ctor" || p == "sub" || p == "clone") return "construct";
+    return p;
+}
+// "reference xalanc_1_12::XalanVector<int, ...>::operator[](size_type) [Type = int]" -> "XalanVector::operator[]"
+std::string assertFn(const char* pretty) {
+    std::string in = pretty ? pretty : "?"; size_t br = in.find(" ["); if (br != std::string::npos) in.erase(br);
+    std::string s; int depth = 0;
+    for (size_t i = 0; i < in.size(); ++i) {
+        const char c = in[i]; const bool afterOp = s.size() >= 8 && s.compare(s.size() - 8, 8, "operator") == 0;
+        if (afterOp && depth == 0 && (c == '<' || c == '>' || c == '(' || c == '[' || c == '-' || c == '=' || c == '+' || c == '!' || c == '*')) {
+            // operator symbol: copy it verbatim
+            while (i < in.size() && in[i] != '(' ) { s += in[i]; ++i; }
+            if (s.size() >= 8 && s.compare(s.size() - 8, 8, "operator") == 0 && i + 1 < in.size() && in[i] == '(' && in[i + 1] == ')') { s += "()"; }
+            break;
+        }
+        if (c == '<') { ++depth; continue; }
+        if (c == '>') { if (depth > 0) --depth; continue; }
+        if (depth > 0) continue;
+        if (c == '(') break;
+        s += c;
+    }
+    for (const char* ns : { "xalanc_1_12::", "xalanc::", "xercesc_3_2::" }) { size_t q; while ((q = s.find(ns)) != std::string::npos) s.erase(q, strlen(ns)); }
+    while (!s.empty() && s.back() == ' ') s.pop_back();
+    size_t sp = s.rfind(' '); if (sp != std::string::npos) s = s.substr(sp + 1);
+    while (!s.empty() && (s[0] == '&' || s[0] == '*')) s.erase(0, 1);
+    return s;
+}
+const char* classOf(const std::string& cont) {
+    static const struct { const char* c; const char* k; } T[] = { { "vector", "XalanVector" }, { "list", "XalanList" }, { "deque", "XalanDeque" }, { "map", "XalanMap" }, { "set", "XalanSet" },
+        { "string", "XalanDOMString" }, { "stringpool", "XalanDOMStringPool" }, { "hashtable", "XalanDOMStringHashTable" }, { "bitmap", "XalanBitmap" }, { "cache", "XalanObjectCache" } };
+    for (auto& t : T) if (cont == t.c) return t.k;
+    return "?";
+}
+bool listed(const char* list, const std::string& m) {
+    const std::string l = std::string(",") + list + ","; return l.find("," + m + ",") != std::string::npos;
+}
+// expressions that state an invariant or a postcondition of the library itself, never an argument precondition
+bool invariantExpr(const std::string& e) {
+    static const char* const INV[] = { "m_size == theRhs.m_size", "m_buckets.empty() == false", "index < m_buckets.size()", "0 == m_size", "m_entries.empty()", "m_allocation >= theSize",
+        "m_size == theSize", "theNewSize > m_size", "theNewSize != 0", "m_stringCount == m_hashTable.size()", "length() == theCount", "length() == theLength", "length() == 1", "*thePosition == theChar",
+        "pointer != 0", "m_memoryManager != 0", "&node != m_listHead", "m_blockIndex.back() != 0", "m_data.size() - 1 == m_size", "m_size == m_data.size() - 1", "m_allocation >= m_size", "m_data.back() == 0", 0 };
+    for (const char* const* p = INV; *p; ++p) if (e.find(*p) != std::string::npos) return true;
+    return false;
+}
+bool calledDirectly(const Run& R, const std::string& method) {
+    static const char* ACC = "size,length,empty,capacity,c_str,data,operator[],at,front,back,begin,end,rbegin,rend,find,count,getSize,isSet,bucketCount,getBucketCounts,getHashTable,hash";
+    const std::string& d = R.directOp; const std::string cls = R.apiClass;
+    if (R.phase != "op") return method == "~" + cls;
+    if (listed(ACC, method) || method == d) return true;
+    if ((d == "assign" || d == "self" || d == "copy") && (method == "operator=" || method == "assign" || method == cls || method == "clone" || method == "swap")) return true;
+    if ((d == "append" || d == "push_back") && (method == "append" || method == "operator+=" || method == "push_back")) return true;
+    if ((d == "set" || d == "index") && method == "operator[]") return true;
+    if ((d == "ctor" || d == "sub" || d == "clone") && (method == cls || method == "clone" || method == "swap")) return true;
+    if (d == "equals" && (method == "operator==" || method == "operator!=" || method == "equals")) return true;
+    if (d == "erase" && method == "find") return true;
+    return false;
+}
+
 // ------------------------------------------------------------------------------------------------ execution
 struct ProgressOut { char cont[24]; char kind[64]; char phase[16]; int opIdx; };
 ProgressOut* g_progress = 0;
@@ -129,11 +198,11 @@ template <class Runner> void runHistory(Run& R) {
     const Json& ops = R.plan.at("ops");
     for (size_t i = 0; i < ops.a.size() && !R.stop; ++i) {
         if (ops.a[i].t != Json::Obj) continue;
-        R.opIdx = i; R.op = &ops.a[i]; R.phase = "op"; R.extraLive = 0; R.kind = ops.a[i].str("op"); R.stateClass = "";
+        R.opIdx = i; R.op = &ops.a[i]; R.phase = "op"; R.extraLive = 0; R.kind = ops.a[i].str("op"); R.stateClass = ""; R.family = familyOf(R.kind); R.directOp = prefixOf(R.kind);
         note(R);
         r->step();
     }
-    R.op = 0; R.opIdx = ops.a.size(); R.kind = "destroy"; R.stateClass = ""; R.phase = "destroy"; R.fired = false;
+    R.op = 0; R.opIdx = ops.a.size(); R.kind = "destroy"; R.family = "destroy"; R.directOp = "destroy"; R.stateClass = ""; R.phase = "destroy"; R.fired = false;
     note(R);
     r->finish(); delete r;
     R.phase = "final";
@@ -146,14 +215,10 @@ template <class KE> void mapByValue(Run& R, const std::string& ve) {
     if (ve == "string") runHistory<MapRun<KE, StrE> >(R); else if (ve == "counting") runHistory<MapRun<KE, CntE> >(R); else runHistory<MapRun<KE, IntE> >(R);
 }
 
-bool listed(const char* list, const std::string& m) {
-    const std::string l = std::string(",") + list + ","; return l.find("," + m + ",") != std::string::npos;
-}
-
 struct C20 : public Driver {
     const char* property() const override { return "C20"; }
     void init() override {
-        xalanInitOnce(); installHandlers();
+        xalanInitOnce(); installHandlers(); signal(SIGPIPE, SIG_IGN);
         progress = (Progress*)mmap(nullptr, 4096, PROT_READ | PROT_WRITE, MAP_SHARED | MAP_ANONYMOUS, -1, 0);
         g_progress = progress;
     }
@@ -219,21 +284,21 @@ struct C20 : public Driver {
         const std::string at = R.phase == "op" ? R.where() : R.phase;
         if (code == ABORT_ASSERT) {
             std::string file = A.file; size_t p = file.find("/src/xalanc/"); if (p != std::string::npos) file = file.substr(p + 5);
-            const std::string fn = normSym(A.func);
+            const std::string fn = assertFn(A.func);
             const std::string text = std::string("assertion `") + A.expr + "' failed at " + file + ":" + std::to_string(A.line) + " in " + fn + " during " + at;
             R.tr.ev("assert " + fn + " " + A.expr);
             const std::string cls = std::string(R.apiClass) + "::";
-            if (fn.compare(0, cls.size(), cls) == 0 && listed(R.apiMethods, fn.substr(cls.size())))
+            if (fn.compare(0, cls.size(), cls) == 0 && calledDirectly(R, fn.substr(cls.size())) && !invariantExpr(A.expr))
                 R.res.harness("the interpreter called " + fn + " outside its documented precondition: " + text);     // generator bug, never a verdict
             else
-                R.res.violate("library-assert", R.cont + ":" + R.kind + ":" + fn, text + " (the asserting function is not one the harness calls directly: the library broke its own invariant)");
+                R.res.violate("library-assert", R.cont + ":" + R.kind + ":" + fn, text + " (not a precondition of the call the harness made: the library broke its own contract)");
         } else if (code == ABORT_SIGNAL) {
             R.tr.ev("signal " + std::to_string(A.sig));
-            R.res.violate("abnormal-termination", "signal" + std::to_string(A.sig) + ":" + R.cont + ":" + R.kind + ":" + R.phase + (R.fired || R.modeB ? "" : ""),
+            R.res.violate("abnormal-termination", "signal" + std::to_string(A.sig) + ":" + R.cont + ":" + (R.mm.refused ? "after-refused-allocation" : "fault-free"),
                           "signal " + std::to_string(A.sig) + " inside the library during " + at + (R.modeB ? " (mode B: an allocation had been refused earlier in this history: " + std::to_string(R.mm.refused) + ")" : ""));
         } else {
             R.tr.ev("watchdog");
-            R.res.harness("watchdog: history did not finish within 60 s, during " + at);
+            R.res.harness("watchdog: history did not finish within 20 s, during " + at);
         }
     }
 
@@ -241,12 +306,13 @@ struct C20 : public Driver {
     // ---- every history runs in a forked child of the pre-initialised worker: an AddressSanitizer report or a
     // std::terminate ends only that history, and the parent turns it into an ordinary violation record.
     static std::string slurp(int fd) { std::string s; lseek(fd, 0, SEEK_SET); char b[8192]; ssize_t n; while ((n = read(fd, b, sizeof b)) > 0) s.append(b, n); close(fd); return s; }
-    static std::string asanSig(const std::string& err, std::string* kindOut) {
+    static std::string asanSig(const std::string& err, std::string* kindOut, const std::string& cont, const std::string& op) {
         std::string kind = "unknown"; size_t p = err.find("ERROR: AddressSanitizer: ");
         if (p != std::string::npos) { size_t e = err.find_first_of(" \n", p + 25); kind = err.substr(p + 25, e - (p + 25)); }
         if (kindOut) *kindOut = kind;
-        std::vector<std::string> frames; bool started = false; size_t q = p == std::string::npos ? 0 : p;
-        while (q < err.size() && frames.size() < 3) {
+        std::vector<std::string> frames, own; bool started = false; size_t q = p == std::string::npos ? 0 : p;
+        const std::string c1 = std::string(classOf(cont)) + "::", c2 = cont == "set" ? "XalanMap::" : c1;
+        while (q < err.size() && own.size() < 2) {
             size_t e = err.find('\n', q); if (e == std::string::npos) e = err.size();
             const std::string ln = err.substr(q, e - q); q = e + 1;
             size_t h = ln.find_first_not_of(' ');
@@ -256,64 +322,95 @@ struct C20 : public Driver {
                 if (sp == std::string::npos || sp <= in) continue;
                 const std::string fn = ln.substr(in, sp - in), file = ln.substr(sp + 1);
                 if (file.find("/src/xalanc/") == std::string::npos) continue;
-                const std::string f = normSym(fn);
-                if (frames.empty() || frames.back() != f) frames.push_back(f);
+                const std::string f = assertFn(fn.c_str());
+                if (frames.size() < 3 && (frames.empty() || frames.back() != f)) frames.push_back(f);
+                if ((f.compare(0, c1.size(), c1) == 0 || f.compare(0, c2.size(), c2) == 0) && (own.empty() || own.back() != f)) own.push_back(f);
             } else if (started && ln.find_first_not_of(" \t") == std::string::npos) break;
         }
-        std::string sig = kind + ":"; if (frames.empty()) sig += "no-xalan-frame"; for (size_t i = 0; i < frames.size(); ++i) sig += (i ? "<" : "") + frames[i];
+        // frames of the class under test identify the defect independently of the element type; without any, the report
+        // comes from the harness reading an element the container handed out
+        if (own.empty()) return kind + ":reading-" + cont + "-element:" + familyOf(op);
+        frames = own;
+        std::string sig = kind + ":"; for (size_t i = 0; i < frames.size(); ++i) sig += (i ? "<" : "") + frames[i];
         return sig;
     }
     typedef ProgressOut Progress;
     Progress* progress = 0;
 
-    void execute(const Json& plan, Result& res, Trace& tr) override {
-        if (getenv("C20_NOFORK")) { executeHere(plan, res, tr); return; }
-        const int rfd = memfd_create("c20res", 0), efd = memfd_create("c20err", 0);
-        memset(progress, 0, sizeof *progress);
-        fflush(stdout); fflush(stderr);
-        const pid_t pid = fork();
-        if (pid < 0) { res.harness("fork failed"); close(rfd); close(efd); return; }
-        if (pid == 0) {
-            dup2(efd, 2);
-            std::set_terminate([] { _exit(78); });
-            Result r2; r2.run = res.run; r2.seed = res.seed; Trace t2; t2.keep = tr.keep;
+    // ---- the interpreter lives in a child process that is kept across histories and replaced when it dies
+    struct Child { pid_t pid = -1; int toFd = -1, fromFd = -1, errFd = -1; } ch;
+    static bool writeAll(int fd, const void* p, size_t n) { const char* c = (const char*)p; while (n) { ssize_t w = write(fd, c, n); if (w <= 0) { if (w < 0 && errno == EINTR) continue; return false; } c += w; n -= (size_t)w; } return true; }
+    static bool readAll(int fd, void* p, size_t n) { char* c = (char*)p; while (n) { ssize_t r = read(fd, c, n); if (r <= 0) { if (r < 0 && errno == EINTR) continue; return false; } c += r; n -= (size_t)r; } return true; }
+    bool abortedBySignal = false;
+
+    void childLoop(int in, int out) {
+        std::set_terminate([] { _exit(78); });
+        for (;;) {
+            uint32_t hdr[2]; if (!readAll(in, hdr, sizeof hdr)) _exit(0);
+            std::string buf(hdr[0], '\0'); if (!readAll(in, &buf[0], buf.size())) _exit(0);
+            if (ftruncate(2, 0) == 0) lseek(2, 0, SEEK_SET);
+            Result r2; Trace t2; t2.keep = hdr[1] != 0; abortedBySignal = false;
             ubsanReset();
-            try { executeHere(plan, r2, t2); }
+            try { Json plan = Json::parse(buf); executeHere(plan, r2, t2); }
             catch (const std::exception& e) { r2.harness(std::string("exception escaped the interpreter: ") + e.what()); }
             catch (...) { r2.harness("unknown exception escaped the interpreter"); }
             for (auto& u : ubsanTake()) r2.violate("sanitizer:ubsan", u, "UndefinedBehaviorSanitizer report: " + u + " (" + progress->cont + ")");
             Json j = Json::object();
-            j["status"] = r2.status; j["hdetail"] = r2.harnessDetail; j["hash"] = t2.hex(); j["events"] = (long long)t2.events;
+            j["status"] = r2.status; j["hdetail"] = r2.harnessDetail; j["hash"] = t2.hex(); j["events"] = (long long)t2.events; j["bye"] = abortedBySignal;
             Json vl = Json::array(); for (auto& v : r2.viols) { Json o = Json::object(); o["c"] = v.cls; o["s"] = v.sig; o["d"] = v.detail; o["n"] = v.count; vl.push(o); }
             j["viols"] = vl; j["counters"] = r2.counters; j["tags"] = r2.tags;
             if (t2.keep) { Json l = Json::array(); for (auto& e : t2.log) l.push(e); j["log"] = l; }
-            const std::string out = j.dump(); size_t off = 0;
-            while (off < out.size()) { ssize_t w = write(rfd, out.data() + off, out.size() - off); if (w <= 0) break; off += (size_t)w; }
-            _exit(0);
+            const std::string o = j.dump(); const uint32_t len = (uint32_t)o.size();
+            if (!writeAll(out, &len, sizeof len) || !writeAll(out, o.data(), o.size())) _exit(0);
+            if (abortedBySignal) _exit(0);           // a signal was caught inside the library: do not trust this process any further
         }
-        int st = 0; while (waitpid(pid, &st, 0) < 0 && errno == EINTR) {}
-        const std::string raw = slurp(rfd), err = slurp(efd);
-        const std::string at = std::string(progress->cont) + " op#" + std::to_string(progress->opIdx) + " " + progress->kind + " (" + progress->phase + ")";
-        if (WIFEXITED(st) && WEXITSTATUS(st) == 0 && !raw.empty()) {
-            Json j; try { j = Json::parse(raw); } catch (...) { res.harness("unparsable result from the child"); return; }
+    }
+    bool spawn() {
+        int a[2], b[2]; if (pipe(a) || pipe(b)) return false;
+        ch.errFd = memfd_create("c20err", 0);
+        fflush(stdout); fflush(stderr);
+        const pid_t pid = fork();
+        if (pid < 0) return false;
+        if (pid == 0) { close(a[1]); close(b[0]); dup2(ch.errFd, 2); childLoop(a[0], b[1]); _exit(0); }
+        close(a[0]); close(b[1]); ch.toFd = a[1]; ch.fromFd = b[0]; ch.pid = pid;
+        return true;
+    }
+    int reap(std::string& err) {
+        int st = 0; while (waitpid(ch.pid, &st, 0) < 0 && errno == EINTR) {}
+        err = slurp(ch.errFd); close(ch.toFd); close(ch.fromFd); ch = Child();
+        return st;
+    }
+
+    void execute(const Json& plan, Result& res, Trace& tr) override {
+        if (getenv("C20_NOFORK")) { executeHere(plan, res, tr); return; }
+        if (ch.pid < 0 && !spawn()) { res.harness("cannot start the interpreter process"); return; }
+        memset(progress, 0, sizeof *progress);
+        const std::string body = plan.dump(); const uint32_t hdr[2] = { (uint32_t)body.size(), tr.keep ? 1u : 0u };
+        std::string raw; uint32_t len = 0; bool got = writeAll(ch.toFd, hdr, sizeof hdr) && writeAll(ch.toFd, body.data(), body.size()) && readAll(ch.fromFd, &len, sizeof len);
+        if (got) { raw.resize(len); got = readAll(ch.fromFd, &raw[0], len); }
+        if (got) {
+            Json j; try { j = Json::parse(raw); } catch (...) { res.harness("unparsable result from the interpreter process"); return; }
             res.status = j.str("status", "ok"); res.harnessDetail = j.str("hdetail");
             for (auto& v : j.at("viols").a) { Viol x; x.cls = v.str("c"); x.sig = v.str("s"); x.detail = v.str("d"); x.count = (int)v.num("n", 1); res.viols.push_back(x); }
             res.counters = j.at("counters"); if (res.counters.t != Json::Obj) res.counters = Json::object();
             res.tags = j.at("tags"); if (res.tags.t != Json::Arr) res.tags = Json::array();
             tr.h = strtoull(j.str("hash", "0").c_str(), nullptr, 16); tr.events = (size_t)j.num("events");
             if (tr.keep) for (auto& e : j.at("log").a) tr.log.push_back(e.s);
+            if (j.boolean("bye")) { std::string e; reap(e); }
             return;
         }
-        // the child died: one violation record, deterministic trace
+        // the interpreter process died inside this history: one violation record, deterministic trace
+        std::string err; const int st = reap(err);
+        const std::string at = std::string(progress->cont) + " op#" + std::to_string(progress->opIdx) + " " + progress->kind + " (" + progress->phase + ")";
         res.count("histories:" + std::string(progress->cont)); res.count("crashed-histories");
         std::string cls, sig, detail;
         if (WIFEXITED(st) && (WEXITSTATUS(st) == 77 || err.find("ERROR: AddressSanitizer") != std::string::npos)) {
-            std::string kind; cls = "sanitizer:asan"; sig = asanSig(err, &kind);
+            std::string kind; cls = "sanitizer:asan"; sig = asanSig(err, &kind, progress->cont, progress->kind);
             detail = "AddressSanitizer " + kind + " during " + at + "\n" + err.substr(0, 3500);
-        } else if (WIFEXITED(st) && WEXITSTATUS(st) == 78) { cls = "abnormal-termination"; sig = std::string("terminate:") + progress->cont + ":" + progress->kind; detail = "std::terminate during " + at; }
-        else if (WIFEXITED(st) && WEXITSTATUS(st) == 70) { res.harness("assertion outside a run in the child: " + err.substr(0, 400)); tr.ev("child-harness"); return; }
-        else if (WIFSIGNALED(st)) { cls = "abnormal-termination"; sig = "signal" + std::to_string(WTERMSIG(st)) + ":" + progress->cont + ":" + progress->kind; detail = "child killed by signal " + std::to_string(WTERMSIG(st)) + " during " + at; }
-        else { cls = "abnormal-termination"; sig = "exit" + std::to_string(WIFEXITED(st) ? WEXITSTATUS(st) : -1) + ":" + progress->cont + ":" + progress->kind; detail = "child exited without a result during " + at + "; stderr: " + err.substr(0, 600); }
+        } else if (WIFEXITED(st) && WEXITSTATUS(st) == 78) { cls = "abnormal-termination"; sig = std::string("terminate:") + progress->cont + ":" + familyOf(progress->kind); detail = "std::terminate during " + at; }
+        else if (WIFEXITED(st) && WEXITSTATUS(st) == 70) { res.harness("assertion outside a history in the interpreter process: " + err.substr(0, 400)); tr.ev("child-harness"); return; }
+        else if (WIFSIGNALED(st)) { cls = "abnormal-termination"; sig = "signal" + std::to_string(WTERMSIG(st)) + ":" + progress->cont; detail = "interpreter process killed by signal " + std::to_string(WTERMSIG(st)) + " during " + at; }
+        else { cls = "abnormal-termination"; sig = "exit" + std::to_string(WIFEXITED(st) ? WEXITSTATUS(st) : -1) + ":" + progress->cont; detail = "interpreter process exited without a result during " + at + "; stderr: " + err.substr(0, 600); }
         res.violate(cls, sig, detail);
         tr.ev("child-died " + cls + " " + sig);
     }
@@ -326,10 +423,10 @@ struct C20 : public Driver {
         res.count("histories:" + R->cont); res.count(std::string("mode:") + (R->modeB ? "B" : "A"));
         const int code = sigsetjmp(A.jb, 1);
         bool completed = false;
-        if (code == 0) { A.armed = 1; alarm(60); dispatch(*R); alarm(0); A.armed = 0; completed = res.status != "harness-error" || true; }
-        else { alarm(0); A.armed = 0; aborted(*R, code); res.count("aborted-histories"); }
+        if (code == 0) { A.armed = 1; alarm(20); dispatch(*R); alarm(0); A.armed = 0; completed = res.status != "harness-error" || true; }
+        else { alarm(0); A.armed = 0; aborted(*R, code); res.count("aborted-histories"); if (code == ABORT_SIGNAL) abortedBySignal = true; }
         SimMemoryManager& mm = R->mm;
-        if (code == 0 && completed && R->phase == "final") {
+        if (code == 0 && completed && R->phase == "final" && !R->poisoned) {
             R->kind = "destroy"; R->fired = mm.refused > 0;
             if (Counted::bad) R->lifetime("element-destroyed-twice-or-garbage", std::to_string(Counted::bad) + " destructions/reads of objects that were not live");
             if (Counted::live - R->liveBias != 0) R->lifetime("element-balance", std::to_string(Counted::live - R->liveBias) + " counting elements still alive after the containers were destroyed (constructions " + std::to_string(Counted::ctors) + ", destructions " + std::to_string(Counted::dtors) + ")");
